@@ -16,8 +16,8 @@ import time
 from . import build
 
 VERIF = build.VERIF
-EVID = os.path.join(VERIF, "evidence") if not build.ALT else os.path.join(build.WORK, "evidence")
-REPLAY = os.path.join(VERIF, "replay") if not build.ALT else os.path.join(build.WORK, "replay")
+EVID = os.path.join(VERIF, "evidence") if not (build.ALT or build.COV or build.XFLAGS) else os.path.join(build.WORK, "evidence")
+REPLAY = os.path.join(VERIF, "replay") if not (build.ALT or build.COV or build.XFLAGS) else os.path.join(build.WORK, "replay")
 KNOWN = os.path.join(VERIF, "known_findings.jsonl")
 NPROC = int(os.environ.get("VF_JOBS", "16"))
 PY = "/usr/bin/python3"
